@@ -28,7 +28,7 @@ import pyarrow as pa
 import vgi_rpc.pool as P
 from drivers._conc2_poolsvc import PoolSvc, make_server, worker_cmd
 from vf.sched import Scheduler
-from vgi_rpc.rpc import AnnotatedBatch, make_pipe_pair
+from vgi_rpc.rpc import AnnotatedBatch, RpcError, make_pipe_pair
 
 sys.setswitchinterval(1e-5)
 warnings.filterwarnings("ignore")
@@ -46,6 +46,18 @@ CPC_LABEL = {"start": "start", "join": "join", "drain": "acq", "done": "EXIT"}
 
 class Boom(Exception):
     """Raised by a borrower's on_log callback."""
+
+
+class OsBoom(BrokenPipeError):
+    """An on_log callback whose own I/O failed (printing the log line to a closed stdout): an OSError that has
+    nothing to do with the RPC transport."""
+
+
+class BaseBoom(BaseException):
+    """Not an `Exception`: what KeyboardInterrupt / asyncio.CancelledError / SystemExit look like to the client."""
+
+
+EXC = {"Exception": Boom, "OSError": OsBoom, "Base": BaseBoom}
 
 
 def _lab(label: str) -> str:
@@ -115,9 +127,12 @@ def _server():
 class Script:
     """What a borrower does with its proxy.  `reads` collects (expected, got) pairs of values only it asked for."""
 
-    def __init__(self, on_log_arm) -> None:
-        self.arm = on_log_arm
+    def __init__(self, on_log_arm, exc: str = "Exception") -> None:
+        self._arm, self.exc = on_log_arm, exc
         self.reads: list[bool] = []
+
+    def arm(self, at: int, exc: str | None = None) -> None:
+        self._arm(at, exc or (self.exc if self.exc != "none" else "Exception"))
 
     def chk(self, got, exp) -> None:
         self.reads.append(got == exp)
@@ -163,10 +178,61 @@ def s_unary_intr(sc, svc, tag, pos):
 
 
 def s_close_intr(sc, svc, tag, pos):
-    """on_log raises while close() drains the rest of the stream"""
-    s = svc.count(tag=tag, n=3, logs=2)
+    """on_log raises while close() drains: a tick is interrupted at its first log (the borrower catches that), so
+    3 more logs and the data batch of that turn are still unread when close() is called; on_log raises again at the
+    pos-th of them"""
+    s = svc.count(tag=tag, n=3, logs=4)
+    sc.arm(1, "Exception")
+    try:
+        s.tick()
+    except Boom:
+        pass
     sc.arm(pos)
     s.close()
+
+
+def s_unary_error(sc, svc, tag, pos):
+    """the server raises in a unary method; the borrower goes on using the connection"""
+    try:
+        svc.boom(x=tag)
+        sc.reads.append(False)
+    except RpcError:
+        pass
+    for _ in range(pos):
+        sc.chk(svc.echo(x=tag), tag)
+
+
+def s_stream_error(sc, svc, tag, pos):
+    """the producer raises on its pos-th turn (tick() closes the session on RpcError)"""
+    s = svc.count_fail(tag=tag, at=pos)
+    try:
+        for i in range(pos + 1):
+            sc.chk(s.tick().batch.column("v")[0].as_py(), tag * 1000 + i)
+        sc.reads.append(False)
+    except RpcError:
+        pass
+
+
+def s_init_error(sc, svc, tag, pos):
+    """a stream method raises before its stream opens: pos = 0 header-less (the error arrives with the first
+    tick), pos = 1 with a declared header (the error arrives instead of the header)"""
+    try:
+        if pos == 0:
+            svc.init_fail(tag=tag).tick()
+        else:
+            svc.init_fail_h(tag=tag)
+        sc.reads.append(False)
+    except RpcError:
+        pass
+
+
+def s_xchg_error(sc, svc, tag, pos):
+    s = svc.xchg_fail(tag=tag)
+    try:
+        s.exchange(_batch(1))
+        sc.reads.append(False)
+    except RpcError:
+        pass
 
 
 def s_abandon(sc, svc, tag, pos):
@@ -233,30 +299,41 @@ def s_abandon_then_unary(sc, svc, tag, pos):
 
 
 # kind -> [(script, positions)]     kind = the abstract class of Pool.tla / PoolUse.tla
+# kind -> [(script, positions, exception classes the on_log callback raises)]
+#   kind = the abstract class of Pool.tla / PoolUse.tla; exception class "none" = the script has no raising callback
+_N, _E, _OB, _ALL = ["none"], ["Exception"], ["OSError", "Base"], ["Exception", "OSError", "Base"]
 SCRIPTS = {
-    "clean": [(s_unary, [0]), (s_stream_full, [0]), (s_stream_close, [0, 1, 3]), (s_stream_cancel, [0, 2]),
-              (s_xchg_close, [0, 2]), (s_unary_intr, [1, 2, 3]), (s_close_intr, [1, 2, 3])],
-    "abandon": [(s_abandon, [0, 1, 2, 3]), (s_abandon_hdr, [0, 1]), (s_tick_intr, [1, 2, 3]), (s_xchg_intr, [1, 2]),
-                (s_hdr_intr, [1, 2]), (s_abandon_then_unary, [0, 1])],
-    "nonlast": [(s_abandon_then_close, [0, 1, 2]), (s_abandon_then_cancel, [1]), (s_closed_then_hdr_intr, [1, 2])],
+    "clean": [(s_unary, [0], _N), (s_stream_full, [0], _N), (s_stream_close, [0, 1, 3], _N), (s_stream_cancel, [0, 2], _N),
+              (s_xchg_close, [0, 2], _N), (s_unary_intr, [1, 2, 3], _E), (s_close_intr, [1, 2, 3], _E),
+              (s_unary_error, [0, 1], _N), (s_stream_error, [0, 1, 2], _N), (s_init_error, [0, 1], _N),
+              (s_xchg_error, [0], _N)],
+    "abandon": [(s_abandon, [0, 1, 2, 3], _N), (s_abandon_hdr, [0, 1], _N), (s_tick_intr, [1, 2, 3], _ALL),
+                (s_xchg_intr, [1, 2], _ALL), (s_hdr_intr, [1, 2], _ALL), (s_abandon_then_unary, [0, 1], _N)],
+    "nonlast": [(s_abandon_then_close, [0, 1, 2], _N), (s_abandon_then_cancel, [1], _N),
+                (s_closed_then_hdr_intr, [1, 2], _ALL)],
+    # a call / a close()-drain interrupted by a client-side exception that is not a plain `Exception`
+    "intr": [(s_unary_intr, [1, 2, 3], _OB), (s_close_intr, [1, 2, 3], _OB)],
 }
 
 
-def all_scripts() -> list[tuple[str, str, int]]:
-    return [(k, fn.__name__, p) for k, lst in SCRIPTS.items() for fn, ps in lst for p in ps]
+def all_scripts() -> list[tuple[str, str, int, str]]:
+    return [(k, fn.__name__, p, e) for k, lst in SCRIPTS.items() for fn, ps, es in lst for p in ps for e in es]
 
 
 def _fn(name: str):
     return globals()[name]
 
 
-def run_script(svc, name: str, tag: int, pos: int, arm) -> tuple[list[bool], str | None]:
-    sc = Script(arm)
+def run_script(svc, name: str, tag: int, pos: int, arm, exc: str = "Exception") -> tuple[list[bool], str | None]:
+    sc = Script(arm, exc)
     err = None
     try:
         _fn(name)(sc, svc, tag, pos)
-    except Boom:
+    except (Boom, OsBoom, BaseBoom):
         err = "Boom"
+    except RpcError as e:
+        # the client wraps OSError-looking exceptions (also the callback's own) into RpcError("TransportError")
+        err = "Boom" if isinstance(e.__cause__, OsBoom) else "RpcError"
     except Exception as e:  # noqa: BLE001   (scripts that misuse a connection get errors for themselves)
         err = type(e).__name__
     finally:
@@ -265,15 +342,15 @@ def run_script(svc, name: str, tag: int, pos: int, arm) -> tuple[list[bool], str
 
 
 def make_on_log():
-    st = {"at": 0, "n": 0}
+    st = {"at": 0, "n": 0, "exc": Boom}
 
-    def arm(at: int) -> None:
-        st["at"], st["n"] = at, 0
+    def arm(at: int, exc: str = "Exception") -> None:
+        st["at"], st["n"], st["exc"] = at, 0, EXC[exc]
 
     def on_log(msg) -> None:
         st["n"] += 1
         if st["at"] and st["n"] == st["at"]:
-            raise Boom(msg.message)
+            raise st["exc"](msg.message)
 
     return on_log, arm
 
@@ -288,7 +365,7 @@ class PoolWorld:
         self.sched = Scheduler(step_timeout=30.0)
         self.workers: list = []
         self.held = [0] * nb
-        self.kind = [("clean", "s_unary", 0)] * nb
+        self.kind = [("clean", "s_unary", 0, "none")] * nb
         self.outcome: dict[int, list] = {b: [] for b in range(1, nb + 1)}
         self.trace: list[dict] = []
         self.mon: list[dict] = []
@@ -492,7 +569,7 @@ class PoolWorld:
             self.held[b - 1] = 0
 
     def _use(self, b: int, svc, tr, arm) -> None:
-        kind, name, pos = self.kind[b - 1]
+        kind, name, pos, exc = self.kind[b - 1]
         tag = next(self.tags)
         with Watchdog(tr, _real_threading.get_native_id()) as wdg:
             try:
@@ -503,11 +580,11 @@ class PoolWorld:
             if not ok:
                 self.outcome[b].append(("dirty-handout", tr.id, "blocked" if wdg.fired else "error"))
                 return
-            self.last_use[tr.id] = f"{kind}:{name}"
-            reads, err = run_script(svc, name, next(self.tags) * 10, pos, arm)
+            self.last_use[tr.id] = f"{kind}:{name}:{exc}"
+            reads, err = run_script(svc, name, next(self.tags) * 10, pos, arm, exc)
         if kind == "clean":
             self._mon("Answer", b=b, w=tr.id, ok=all(reads) and err in (None, "Boom"))
-        self.outcome[b].append((kind, name, pos, err))
+        self.outcome[b].append((kind, name, pos, exc, err))
 
     # ------------------------------------------------------------------ observation
     def _mon(self, e: str, **k) -> None:
@@ -524,25 +601,27 @@ class PoolWorld:
     def _ev(self, a: str, k: int = 0, kind: str = "", lab: str = "") -> dict:
         obs = self.observe()
         self._mon("Idle", n=len(obs["idle"]))
-        ev = {"a": a, "k": k, "kind": kind, "lab": lab, "script": "", "pos": 0, **obs}
+        ev = {"a": a, "k": k, "kind": kind, "lab": lab, "script": "", "pos": 0, "exc": "none", **obs}
         self.trace.append(ev)
         return ev
 
     # ------------------------------------------------------------------ operations
-    def step_b(self, b: int, kind: str | None = None, script: str | None = None, pos: int | None = None) -> dict:
+    def step_b(self, b: int, kind: str | None = None, script: str | None = None, pos: int | None = None,
+               exc: str | None = None) -> dict:
         name = f"b{b}"
         used = ""
         if self.sched.label(name) == "use":
             k = kind or "clean"
             if script is None:
-                fn, ps = (self.rng.choice(SCRIPTS[k]) if self.rng else SCRIPTS[k][0])
+                fn, ps, es = (self.rng.choice(SCRIPTS[k]) if self.rng else SCRIPTS[k][0])
                 script, pos = fn.__name__, (self.rng.choice(ps) if self.rng else ps[0])
-            self.kind[b - 1] = (k, script, pos)
+                exc = self.rng.choice(es) if self.rng else es[0]
+            self.kind[b - 1] = (k, script, pos, exc or "none")
             used = k
         self.sched.step(name)
         ev = self._ev("B", b, used, _lab(self.sched.label(name)))
         if used:
-            ev["script"], ev["pos"] = self.kind[b - 1][1], self.kind[b - 1][2]
+            ev["script"], ev["pos"], ev["exc"] = self.kind[b - 1][1:4]
         return ev
 
     def step_r(self) -> dict:
@@ -571,7 +650,7 @@ class PoolWorld:
         for b in range(1, self.nb + 1):
             if s.enabled(f"b{b}"):
                 if s.label(f"b{b}") == "use":
-                    ops += [("step_b", b, k) for k in ("clean", "clean", "abandon", "nonlast")]
+                    ops += [("step_b", b, k) for k in ("clean", "clean", "clean", "abandon", "nonlast", "intr")]
                 else:
                     ops.append(("step_b", b))
         if self.with_reaper and s.enabled("reaper"):
@@ -672,7 +751,7 @@ def run_random(rng, nb: int, rounds: int, max_idle: int, reaper: bool, closer: b
 
 def calibrate() -> dict:
     """Which design does the pool under test follow?  Two scripted sequential runs, decided by behaviour."""
-    out = {"Dev_MaxIdleZeroKeeps": True, "Dev_LastSessionOnly": True}
+    out = {"Dev_MaxIdleZeroKeeps": True, "Dev_LastSessionOnly": True, "IntrMode": "keep"}
     try:
         with PoolWorld(1, 1, 0, reaper=False, closer=False) as w:
             ev = None
@@ -684,6 +763,23 @@ def calibrate() -> dict:
             for _ in range(6):
                 ev = w.step_b(1, "nonlast")
             out["Dev_LastSessionOnly"] = len(ev["idle"]) > 0
+        modes = set()
+        for script in ("s_unary_intr", "s_close_intr"):
+            for exc in ("OSError", "Base"):
+                with PoolWorld(1, 2, 1, reaper=False, closer=False) as w:
+                    for _ in range(4):
+                        w.step_b(1)
+                    w.step_b(1, "intr", script, 1, exc)          # the script runs
+                    ev = w.step_b(1)                                # the worker is returned (or not)
+                    if not ev["idle"]:
+                        modes.add("discard")
+                        continue
+                    w.step_b(1)                                     # second round: the same borrower gets it again
+                    w.step_b(1, "clean", "s_unary", 0, "none")
+                    ok = [m["ok"] for m in w.mon if m["e"] == "Probe"]
+                    modes.add("drain" if ok and ok[-1] else "keep")
+        out["IntrMode"] = "keep" if "keep" in modes else ("discard" if modes == {"discard"} else "drain")
+        out["intr_modes_seen"] = sorted(modes)
     except Exception as e:  # noqa: BLE001
         out["error"] = repr(e)
     return out
@@ -733,7 +829,7 @@ def _table_case(c: dict, inproc: bool) -> dict:
                     svc.pid()                                  # (a real worker has started once this returns)
                     pid1 = svc._transport._inner.proc.pid
                     obs["first_ok"] = svc.echo(x=41) == 41
-                    _, err = run_script(svc, c["script"], 7, c["pos"], arm)
+                    _, err = run_script(svc, c["script"], 7, c["pos"], arm, c.get("exc", "Exception"))
                     obs["err"] = err or ""
                 finally:
                     g.cancel()
